@@ -4,4 +4,10 @@ from props.common import corpus_check
 
 
 def run(ctx):
-    return corpus_check(ctx, "C10", oracles.c10, l1_oracle=lambda it: oracles.files_c10(it["impl"]["stubs"], it.get("module_names")))
+    def pkg_oracle(c):
+        r = oracles.c10(c)
+        vs, n = r if isinstance(r, tuple) else (r, 1)
+        return list(vs) + oracles.writes_c10(c.answer.get("writes")), n
+
+    return corpus_check(ctx, "C10", pkg_oracle,
+                        l1_oracle=lambda it: oracles.files_c10(it["impl"]["stubs"], it.get("module_names")) + oracles.writes_c10(it["impl"].get("writes")))
